@@ -153,6 +153,17 @@ def judge_batch_sizes(gc):
     return out
 
 
+def judge_aftermath(gc):
+    """the estimate of the CURRENT throw after a refused throw (wrong shape) and after the caller overwrote every array
+    the accessors returned (nssmc/checks/c02.py): unchanged, bit for bit"""
+    from .c02 import judge_refused_and_reread
+
+    out = []
+    for n in (6, 40):
+        out += [(c, f"N={n}", e, o) for c, e, o in judge_refused_and_reread(gc, n)]
+    return out
+
+
 def judge_count_path(gc):
     """thrown by COUNT (what a run does): the N events are the events of the 4N numbers the generator hands out, each
     used as one coordinate of one event, untransformed -- whatever the layout they are drawn in. The generator is owned
@@ -378,7 +389,7 @@ def _one_inner(args):
     idx = list(range(0, U.shape[1], max(1, U.shape[1] // 40)))
     vs = judge_single_event_weight(gc, U, idx)
     v2, n2, k2 = judge_region(gc, 6 if tier == "quick" else 8)
-    v2 = list(v2) + judge_batch_sizes(gc) + judge_two_instances(gc) + judge_count_path(gc)
+    v2 = list(v2) + judge_batch_sizes(gc) + judge_two_instances(gc) + judge_count_path(gc) + judge_aftermath(gc)
     res = dict(gc=gc, pw=[(c, U[:, i].tolist(), e, o) for c, i, e, o in v1[:10]], sw=[(c, U[:, i].tolist(), e, o) for c, i, e, o in vs[:10]], rg=v2, info=info, n_pw=int(U.shape[1]), n_sw=len(idx), n_rg=n2, kept_rg=k2, quad=None)
     if math.degrees(gc["cone"]) <= 60.0 + 1e-9:
         levels = [(16, 32), (32, 64)] if tier == "quick" else [(16, 32), (32, 64), (64, 128)]
@@ -463,7 +474,7 @@ def replay(case):
         return [(c, e, o) for c, i, e, o in judge_single_event_weight(gc, U, [0])]
     if k == "rg":
         v, _, _ = judge_region(gc, 6 if case.get("tier", "quick") == "quick" else 8)
-        v = list(v) + judge_batch_sizes(gc) + judge_two_instances(gc) + judge_count_path(gc)
+        v = list(v) + judge_batch_sizes(gc) + judge_two_instances(gc) + judge_count_path(gc) + judge_aftermath(gc)
         return [(c, e, o) for c, name, e, o in v if name == case["name"]]
     if k == "quad":
         v, _, _ = judge_quadrature(gc, [tuple(x) for x in case["levels"]], tuple(case["m4s"]))
